@@ -44,8 +44,10 @@ func ruleC02(c *Check) {
 	c.newBatchRules("C02", map[string]bool{"list-vs-amount": true, "credit-without-obligation": true, "obligation-without-credit": true, "supermode-charged": true})
 	c.debitPayer("C02.6")
 	c.filterTotal("C02.6")
+	c.issueLoopOverList("C02.6")
 	c.pricingIdentity("C02.6")
 	c.escrowInventory("C02.7")
+	c.startRules("C02")
 	c.feeWriters("C02")
 	c.slashTriggerOnly("C02.1")
 	c.schemaPredicate("C02.1", c.typesName("ValidateResponseOutput"), "types.OutputSchema")
@@ -58,15 +60,20 @@ func ruleC06(c *Check) {
 	c.newBatchRules("C06", map[string]bool{"skip-with-charge": true, "issue-after-pause": true, "payfail-no-pause": true, "list-vs-amount": true,
 		"obligation-without-credit": true, "running-no-successor": true, "issue-while-not-running": true})
 	c.issueDecision("C06.4")
+	c.issueLoopOverList("C06.3")
+	// "within the consumer's fee cap": the cap in force is the one the consumer last set
+	c.updatesTakeEffect("C06.9")
 	c.payRefusals("C06.5")
 	c.scanOrder("C06.7")
 	c.pricingIdentity("C06.8")
+	c.contextFieldRules("C06", map[string]bool{"state": true})
 }
 
 func ruleC07(c *Check) {
 	c.assume("A-SDK: sdk.Dec arithmetic is correct; discounts lie in (0,1) by the pricing JSON schema (not decided)")
 	c.priceSkeleton("C07.1")
 	c.timeWindow("C07.2")
+	c.volumeTiers("C07.2")
 	c.pricingIdentity("C07.3")
 	c.respondRules("C07")
 	c.volumeWriters("C07.5")
@@ -74,10 +81,15 @@ func ruleC07(c *Check) {
 	c.newBatchRules("C07", map[string]bool{"supermode-charged": true})
 	c.paramGettersExact("C07.1", "KeyBaseDenom")
 	c.moduleServiceNotSuper("C07.7")
+	// "never less than one unit of the base denomination": the price routine reads the denomination off the stored base price, which the parser never leaves empty
+	c.priceNonEmpty("C07.8", c.handFuncs("keeper"))
 }
 
 func ruleC13(c *Check) {
 	c.addressRoles("C13.7")
+	c.withdrawAddressSet("C13.8")
+	// an owner's withdrawal address survives a restart of the chain from exported state
+	c.genesisImportsAll("C13.9")
 	c.assume("A-SDK: sdk.Coins arithmetic is correct")
 	c.earnRules("C13")
 	c.withdrawRules("C13")
@@ -725,6 +737,72 @@ func (c *Check) timeWindow(rule string) {
 	}
 	c.req(okDisc && okOne && len(problems) == 0, rule, f.Name, f.Body.Pos(),
 		"a promotion applies iff ¬t.Before(Start) ∧ t.Before(End) (start inclusive, end exclusive), else 1"+condStr(len(problems) > 0, ": "+strings.Join(problems, "; ")))
+}
+
+// volumeTiers (C07.2): a volume tier applies from its threshold on — "volume < tier.Volume" is the only comparison between
+// the delivered volume and a tier's threshold, in either polarity (so volume = threshold belongs to the tier); a comparison
+// in the other direction (tier.Volume < volume, i.e. a "<=" / ">" test) moves the boundary by one. A returned tier discount
+// of the tier under the cursor is on a path that has established ¬(volume < tier.Volume); values other than a tier's
+// Discount or 1 are not returned.
+func (c *Check) volumeTiers(rule string) {
+	f := c.mustFn(rule, c.typesName("GetDiscountByVolume"))
+	if f == nil {
+		return
+	}
+	volP := ""
+	for i, pr := range f.Params {
+		if typeName(pr.Type()) == "uint64" {
+			volP = fmt.Sprintf("P%d", i)
+		}
+	}
+	if volP == "" {
+		c.undecided(rule, f.Name, f.Body.Pos(), "no uint64 volume parameter")
+		return
+	}
+	nCmp := 0
+	var problems []string
+	isThreshold := func(t *Term) bool { return strings.HasSuffix(stripConv(t).Op, ".PromotionByVolume.Volume") }
+	for _, pa := range c.P.PathsOf(f) {
+		af := pa.AllFacts()
+		for _, fa := range af {
+			fa.T.Walk(func(t *Term) bool {
+				if (t.Op == "<" || t.Op == "==") && len(t.A) == 2 {
+					l, r := stripConv(t.A[0]), stripConv(t.A[1])
+					switch {
+					case t.Op == "<" && l.IsAt(volP) && isThreshold(r):
+						nCmp++
+					case (l.IsAt(volP) && isThreshold(r)) || (r.IsAt(volP) && isThreshold(l)):
+						problems = append(problems, "the volume is compared with a tier threshold as "+shortTerm(t)+" — not volume < threshold")
+					}
+				}
+				return true
+			})
+		}
+		if len(pa.Ret) != 1 {
+			continue
+		}
+		r := stripConv(pa.Ret[0])
+		switch {
+		case strings.HasSuffix(r.Op, ".PromotionByVolume.Discount") && len(r.A) == 1 && r.A[0].Op == "elem":
+			// the tier under the cursor: the volume has reached its threshold
+			if !af.Holds(mk("<", atom(volP), field("PromotionByVolume", "Volume", r.A[0])), false) {
+				problems = append(problems, "the discount of the tier under the cursor is returned without the path establishing ¬(volume < its threshold)")
+			}
+		case strings.HasSuffix(r.Op, ".PromotionByVolume.Discount"), r.String() == "(sdk.OneDec)":
+		default:
+			problems = append(problems, "returns "+shortTerm(r))
+		}
+	}
+	sort.Strings(problems)
+	var uniq []string
+	for i, p := range problems {
+		if i == 0 || p != problems[i-1] {
+			uniq = append(uniq, p)
+		}
+	}
+	c.Sites += nCmp
+	c.req(nCmp >= 1 && len(uniq) == 0, rule, f.Name+"#tier-boundary", f.Body.Pos(),
+		"a volume tier applies from its threshold on (the only comparison is volume < tier.Volume)"+condStr(len(uniq) > 0, ": "+strings.Join(uniq, "; "))+condStr(nCmp == 0, ": no comparison volume < threshold found"))
 }
 
 // pricingTextPairs (C07.6 / C15.6): every stored change of the pricing text is paired with storing the parsed pricing of that text.
